@@ -11,7 +11,8 @@
    collinear vertices, component order), symmetry and "== iff same region" are checked by the
    oracle on pools of variants (partial). *)
 From Coq Require Import List.
-From SV Require Import Spec.Spec Lemmas.Tolerance Lemmas.Fuel Lemmas.Safe.
+From SV Require Import Spec.Spec Lemmas.Tolerance Lemmas.Fuel Lemmas.Safe Lemmas.EqSound.
+Open Scope Q_scope.
 Open Scope Q_scope.
 
 Theorem C07_kinds : forall a b, shape_eq a b = Ok true -> same_kind a b.
@@ -52,6 +53,40 @@ Proof. exact jordan_eq_rotl. Qed.
 Print Assumptions C07_start_vertex.
 
 (* regression for the repaired defect F8: two hollow squares at different places are not == *)
+(* SOUNDNESS: on polygonal curves `a == b` implies the same winding number about every point,
+   the same area, the same boundary point set and the same region -- provided control points of
+   the two curves that are equal within the 1e-9 of Point2D.__eq__ are equal (exact_pts: e.g.
+   data on a lattice coarser than 1e-9). *)
+Theorem C07_sound_winding : forall a b, all_lines a = true -> all_lines b = true ->
+  jordan_eq a b = Ok true -> exact_pts a b -> forall p, wn_lines a p = wn_lines b p.
+Proof. exact jordan_eq_sound. Qed.
+Theorem C07_sound_area : forall a b, all_lines a = true -> all_lines b = true ->
+  jordan_eq a b = Ok true -> exact_pts a b -> jordan_area a == jordan_area b.
+Proof. exact jordan_eq_sound_area. Qed.
+Theorem C07_sound_region : forall a b, all_lines a = true -> all_lines b = true ->
+  closed_chain a = true -> closed_chain b = true ->
+  jordan_eq a b = Ok true -> exact_pts a b -> forall p, region_simple a p = region_simple b p.
+Proof. exact jordan_eq_sound_region. Qed.
+(* SYMMETRY under exactness needs two more hypotheses: edges of b longer than 1e-6 and no two
+   equal segments in the cleaned b ... *)
+Theorem C07_symmetric_exact : forall a b, all_lines a = true -> all_lines b = true ->
+  jordan_eq a b = Ok true -> exact_pts a b ->
+  (forall s, In s b -> tol6 < norm2 (psub (last_pt s) (first_pt s))) ->
+  (forall oc, clean b = Ok oc -> Safe.seg_distinct oc) ->
+  jordan_eq b a = Ok true.
+Proof. exact jordan_eq_sym_exact. Qed.
+(* ... and the second one cannot be dropped: a closed walk that uses one edge twice (not a Jordan
+   curve) is == to its rotation in one direction only (index_where takes the FIRST match) *)
+Example C07_symmetry_refuted_on_repeated_edges :
+  all_lines walk2 = true /\ closed_chain walk2 = true /\ clean walk2 = Ok walk2 /\
+  jordan_eq walk2 (rotl 1 walk2) = Ok true /\ jordan_eq (rotl 1 walk2) walk2 = Ok false.
+Proof. exact eq_not_symmetric. Qed.
+Print Assumptions C07_sound_winding.
+Print Assumptions C07_sound_region.
+Print Assumptions C07_symmetric_exact.
+Example C07_sound_nonvacuous : jordan_eq sqA sqB = Ok true /\ exact_pts sqA sqB.
+Proof. destruct sq_hyps as (_ & _ & _ & _ & H1 & H2 & _). split; assumption. Qed.
+
 Example C07_connected_regression :
   let hollow x := SC (CC [[[(x,0);(x+4,0)];[(x+4,0);(x+4,4)];[(x+4,4);(x,4)];[(x,4);(x,0)]];
                           [[(x+1,1);(x+1,3)];[(x+1,3);(x+3,3)];[(x+3,3);(x+3,1)];[(x+3,1);(x+1,1)]]]) in
